@@ -45,13 +45,38 @@ func (it *Interp) valueToCell(v Value) Cell {
 
 func (it *Interp) symStrEq(a, b *SymStr) *Term {
 	if len(a.C) != len(b.C) {
-		// token cells have unknown textual length: only decidable when neither side has tokens
-		for _, c := range append(append([]Cell{}, a.C...), b.C...) {
-			if c.Tok != "" {
-				it.outside("comparison of strings with numeric tokens of different cell counts")
+		hasTok := func(s *SymStr) bool {
+			for _, c := range s.C {
+				if c.Tok != "" {
+					return true
+				}
 			}
+			return false
 		}
-		return it.tb.False
+		ta, tbk := hasTok(a), hasTok(b)
+		if !ta && !tbk {
+			return it.tb.False
+		}
+		// a token stands for at least one byte: a string with more cells than the other side has bytes is longer
+		if !ta && len(b.C) > len(a.C) {
+			return it.tb.False
+		}
+		if !tbk && len(a.C) > len(b.C) {
+			return it.tb.False
+		}
+		// a token-free side whose bytes cannot all belong to a number cannot equal a token
+		nonNumeric := func(s *SymStr) bool {
+			for _, c := range s.C {
+				if c.B != nil && c.B.IsConst() && !tokenAlphabet(byte(c.B.U)) {
+					return true
+				}
+			}
+			return false
+		}
+		if (!ta && nonNumeric(a) && allTokens(b)) || (!tbk && nonNumeric(b) && allTokens(a)) {
+			return it.tb.False
+		}
+		it.outside("comparison of strings with numeric tokens of different cell counts")
 	}
 	r := it.tb.True
 	for i := range a.C {
@@ -60,8 +85,15 @@ func (it *Interp) symStrEq(a, b *SymStr) *Term {
 			if x.Tok != "" && y.Tok != "" {
 				it.outside("comparison of a dec token with a flt token")
 			}
-			// token vs byte: a token is never a single separator byte; compare as different unless the byte is a digit-like char
-			it.outside("comparison of a numeric token with a byte")
+			// token vs byte: a token never equals a byte outside the number alphabet
+			bc := x
+			if x.Tok != "" {
+				bc = y
+			}
+			if bc.B != nil && bc.B.IsConst() && !tokenAlphabet(byte(bc.B.U)) {
+				return it.tb.False
+			}
+			it.outside("comparison of a numeric token with a digit-like byte")
 		}
 		if x.Tok == "" {
 			r = it.tb.And(r, it.tb.Eq(x.B, y.B))
@@ -90,4 +122,13 @@ func (it *Interp) strConcat(a, b Value) Value {
 		y = b.(*SymStr)
 	}
 	return &SymStr{C: append(append([]Cell{}, x.C...), y.C...)}
+}
+
+func allTokens(s *SymStr) bool {
+	for _, c := range s.C {
+		if c.Tok == "" {
+			return false
+		}
+	}
+	return true
 }
